@@ -10,6 +10,8 @@ R16.planes  planes(): each plane has zero signed distance at the frustum corners
             points outward (sign domain under 0 < n < f, l < r, b < t); order top,right,bottom,left,near,far
 R16.ft      FrustumTest::setFrustum stores plane k's normal/|normal|/distance at [k/3][k%3]; every predicate
             rejects on >= 0 of any of the six; box tests use n.c -+ |n|.e - d, sphere tests -+ r
+R16.exc     the throwing twins (...Exc) return the plain form's value wherever they return, and their throw condition,
+            evaluated at points of the (|divisor|, |numerator|) plane, is false for well-conditioned quotients
 """
 import itertools
 from fractions import Fraction
@@ -671,9 +673,20 @@ def main(rep, ws, tier):
         ob('FrustumTest::completelyContains(box)', 'R16.ft', ft_pred('w_ft_in_box', 'box', 1))
         ob('FrustumTest::isVisible(sphere)', 'R16.ft', ft_pred('w_ft_vis_sph', 'sph', -1))
         ob('FrustumTest::completelyContains(sphere)', 'R16.ft', ft_pred('w_ft_in_sph', 'sph', 1))
+    # the throwing twins (projectionMatrixExc, normalizedZToDepthExc, worldRadiusExc, ...) are part of the same documented relations:
+    # same value as the plain form wherever they return, and they return for every well-conditioned frustum (C07's twin rules)
+    from . import c07
+    g7 = [c07.gen(t, only='Frustum', tuname='c16_exc_' + t) for t in types]
+    an7 = Analysed(ws, [g[0] for g in g7], rep)
+    nex = 0
+    for (tu7, pairs7), t in zip(g7, types):
+        for p in pairs7:
+            nex += 1
+            c07.check_pair(rep, an7[tu7], p, t, rn=lambda k: 'R16.exc')
+    rep.floor('throwing frustum twins', nex, 10 * len(types))
     narrowing(rep, ws, [gen('d')], 'R16.prec')
     rep.floor('frustum obligations', len(rep.obs), 20 * len(types))
-    rep.assumptions += ['exact real arithmetic at a generic point', '0 < near < far, left < right, bottom < top for the orientation rule', 'the throwing twins are covered by C07']
+    rep.assumptions += ['exact real arithmetic at a generic point', '0 < near < far, left < right, bottom < top for the orientation rule', 'a wrapper\'s reference parameters do not alias']
     rep.undecided_clauses += ['planes(p, M) for a general (non-identity) M', 'long <-> T truncation in ZToDepth / DepthToZ', 'rounding']
 
 def sign_of(ctx, r, pos_keys):
